@@ -102,17 +102,12 @@ func witnessDesigns() []DCase {
 	add("goify-collision-attributes", svc1("w_collide_attrs", &dg.Method{Name: "m",
 		Payload: pa(dg.A(dg.Obj(dg.F("foo_bar", dg.Prim("String")), dg.F("fooBar", dg.Prim("Int"))))),
 		HTTP:    &dg.HTTPMap{Routes: []dg.Route{{Verb: "POST", Path: "/m"}}}}))
-	// map keyed by an array
-	add("map-key-not-primitive-cli-example", svc1("w_map_array_key", &dg.Method{Name: "m",
+	// map keyed by an array: `invalid map key type []string` in the service package (was hidden behind the
+	// jsonExample panic until codegen/cli guarded keys[0])
+	add("map-key-not-comparable", svc1("w_map_array_key", &dg.Method{Name: "m",
 		Payload: pa(dg.A(dg.Obj(dg.F("mm", dg.MapOf(dg.A(dg.ArrayOf(dg.A(dg.Prim("String")))), dg.A(dg.Prim("String"))))))),
 		HTTP:    &dg.HTTPMap{Routes: []dg.Route{{Verb: "POST", Path: "/m"}}}}))
 	post := func() *dg.HTTPMap { return &dg.HTTPMap{Routes: rt("POST", "/m")} }
-	// a map parameter with MaxLength below 3: the example drawn for the CLI usage can be the empty map
-	{
-		f := dg.F("mm", dg.MapOf(dg.A(dg.Prim("String")), dg.A(dg.Prim("Int")))).With(dg.Validation{MaxLen: dg.Ip(1)})
-		d := svc1("api0", &dg.Method{Name: "m", Payload: pa(dg.A(dg.Obj(f))), HTTP: &dg.HTTPMap{Routes: rt("POST", "/m"), Params: []dg.MapEntry{{Attr: "mm"}}}})
-		add("map-param-maxlength-cli-example", d)
-	}
 	// map keyed by Boolean / Float64: the OpenAPI example cannot be marshalled
 	add("map-bool-or-float-key", svc1("w_map_bool_key", &dg.Method{Name: "m", Payload: pa(dg.A(dg.Obj(dg.F("mm", dg.MapOf(dg.A(dg.Prim("Boolean")), dg.A(dg.Prim("String"))))))), HTTP: post()}))
 	add("map-bool-or-float-key", svc1("w_map_float_key", &dg.Method{Name: "m", Result: pa(dg.A(dg.Obj(dg.F("mm", dg.MapOf(dg.A(dg.Prim("Float64")), dg.A(dg.Prim("Int"))))))), HTTP: post()}))
